@@ -231,7 +231,16 @@ func placeSpread(r *hx.Rng, name string) string {
 }
 
 // document text for a topology; single line, so that column = byte offset + 1
-func genDoc(r *hx.Rng, t topo) string {
+func genDoc(r *hx.Rng, t topo) string { return genDocNamed(r, t, nil) }
+
+// genDocNamed = genDoc with the fragment names given (nil: F0, F1, ...); the random stream does not depend on the names
+func genDocNamed(r *hx.Rng, t topo, names []string) string {
+	fname := func(j int) string {
+		if names != nil {
+			return names[j]
+		}
+		return fmt.Sprintf("F%d", j)
+	}
 	var parts []string
 	// operation(s)
 	nOps := 1
@@ -251,7 +260,7 @@ func genDoc(r *hx.Rng, t topo) string {
 				use = false
 			}
 			if use {
-				sel = append(sel, placeSpread(r, fmt.Sprintf("F%d", j)))
+				sel = append(sel, placeSpread(r, fname(j)))
 			}
 		}
 		if len(sel) == 0 {
@@ -272,7 +281,7 @@ func genDoc(r *hx.Rng, t topo) string {
 		}
 		for j := 0; j < t.N; j++ {
 			if t.Adj[i][j] {
-				sp := placeSpread(r, fmt.Sprintf("F%d", j))
+				sp := placeSpread(r, fname(j))
 				if r.Chance(1, 2) {
 					sel = append(sel, sp)
 				} else {
@@ -283,7 +292,7 @@ func genDoc(r *hx.Rng, t topo) string {
 		if len(sel) == 0 {
 			sel = append(sel, pick(r))
 		}
-		parts = append(parts, fmt.Sprintf("fragment F%d on %s { %s }", i, conds[r.Intn(3)], strings.Join(sel, " ")))
+		parts = append(parts, fmt.Sprintf("fragment %s on %s { %s }", fname(i), conds[r.Intn(3)], strings.Join(sel, " ")))
 	}
 	// fragments in random rotation relative to the operation: definitions may precede their uses
 	if r.Chance(1, 3) {
